@@ -14,6 +14,7 @@ EXTENDS Kernel, Sequences
 CheckedEntries == {"registry_register", "registry_register_sigaction", "low_level_register",
                    "flag_register", "flag_register_usize", "flag_conditional_shutdown",
                    "flag_conditional_default", "pipe_register", "pipe_register_raw",
+                   "pipe_register_raw_pipe", "pipe_register_file",
                    "signals_new", "signals_new_after_valid", "add_signal"}
 UncheckedEntries == {"registry_register_signal_unchecked", "registry_register_unchecked"}
 IteratorEntries == {"signals_new", "signals_new_after_valid", "add_signal"}
